@@ -156,6 +156,7 @@ func C17(p *an.Prog, r *an.Report) {
 		}
 	}
 	r.Floor("router_address_methods", len(methods), 25)
+	defer c17RawValidation(p, r, methods)
 
 	// N1
 	clos := p.Reachable(p.CG(), methods, func(f *ssa.Function) bool { return an.InLib(f) })
@@ -371,6 +372,7 @@ func C17(p *an.Prog, r *an.Report) {
 	// N3
 	if fn := p.Func("data.(MappingValues).Get"); fn != nil {
 		c17Get(p, r, fn)
+		c17GetScansAll(p, r, fn)
 	} else {
 		r.Fail("C17.N3: anchor data.(MappingValues).Get not found")
 	}
@@ -483,4 +485,87 @@ func debugVisited(ev *an.PEval) string {
 	}
 	sort.Strings(s)
 	return strings.Join(s, ",")
+}
+
+// c17GetScansAll (N3b): the lookup must examine every stored pair until a match: the only ways out
+// of the loop over the pairs are exhaustion (from the loop header) and the return of a found value.
+// Any other exit (a break on an ordering assumption, an early nil return) hides options of
+// addresses whose mapping was parsed from the wire in a different order.
+func c17GetScansAll(p *an.Prog, r *an.Report, fn *ssa.Function) {
+	loops := naturalLoops(fn)
+	var bad []string
+	for _, li := range loops {
+		for blk := range li.body {
+			for _, s := range blk.Succs {
+				if li.body[s] {
+					continue
+				}
+				if blk == li.header {
+					continue // exhaustion
+				}
+				// leaving from inside the body: must lead to a return of a non-nil value
+				okExit := false
+				if ret, isRet := s.Instrs[len(s.Instrs)-1].(*ssa.Return); isRet && len(ret.Results) > 0 && !an.IsNilConst(ret.Results[0]) {
+					okExit = true
+				}
+				if !okExit {
+					bad = append(bad, fmt.Sprintf("the loop over the pairs is left from block %d to block %d (%s) without a match", blk.Index, s.Index, p.Pos(firstPos(s))))
+				}
+			}
+		}
+	}
+	r.Check(len(bad) == 0 && len(loops) >= 1, "C17.N3", "(data.MappingValues).Get/scans-all-pairs", p.FnPos(fn), "option lookup examines every pair until a match (no exit on an ordering assumption)", bad...)
+}
+
+func firstPos(b *ssa.BasicBlock) token.Pos {
+	for _, in := range b.Instrs {
+		if in.Pos().IsValid() {
+			return in.Pos()
+		}
+	}
+	return token.NoPos
+}
+
+// c17RawValidation (N2b): every accessor and predicate validates the option value as stored: the
+// string handed to net.ParseIP / strconv.Atoi has no origin in a string-transforming call
+// (strings.TrimSpace, ToLower, Replace, ...). A transformation in one accessor makes it accept
+// values its sibling predicates reject.
+func c17RawValidation(p *an.Prog, r *an.Report, methods []*ssa.Function) {
+	isSink := func(c ssa.CallInstruction) bool {
+		callee := c.Common().StaticCallee()
+		if callee == nil {
+			return false
+		}
+		k := an.FnKey(callee)
+		return k == "net.ParseIP" || k == "strconv.Atoi"
+	}
+	n := 0
+	for _, m := range methods {
+		chains := callChains(p, m, isSink, func(f *ssa.Function) bool { return !an.InLib(f) }, 6)
+		for ci, ch := range chains {
+			site := ch[len(ch)-1]
+			n++
+			var bad []string
+			sl := &an.Slicer{P: p, Root: m, Through: an.AllArgs, MaxDepth: 10, TrackExternal: func(f *ssa.Function) bool {
+				pk := an.FnPkgPath(f)
+				return pk == "strings" || pk == "bytes" || pk == "unicode" || pk == "regexp"
+			}}
+			for _, l := range sl.LeavesInContext(ch[:len(ch)-1], site.Common().Args[0]) {
+				if l.Kind == an.LCall && (strings.HasPrefix(l.Name, "strings.") || strings.HasPrefix(l.Name, "bytes.")) {
+					bad = append(bad, "the validated string passes through "+l.Name)
+				}
+				for _, v := range l.Via {
+					if strings.HasPrefix(v, "ext:") {
+						bad = append(bad, "the validated string passes through "+strings.TrimPrefix(v, "ext:"))
+					}
+				}
+			}
+			callee := site.Common().StaticCallee()
+			r.Check(len(bad) == 0, "C17.N2", fmt.Sprintf("%s/raw-value-to-%s#%d", an.FnKey(m), callee.Name(), ci+1), p.Pos(site.Pos()),
+				"the option value is validated as stored (no trimming/case-folding before "+callee.Name()+")", uniq(bad)...)
+		}
+	}
+	if n < 4 {
+		r.Fail("C17.N2: only %d ParseIP/Atoi validation sites found under the RouterAddress accessors", n)
+	}
 }
